@@ -133,6 +133,18 @@ def gen_value(rng, depth, opts):
 BLOB_EDGES = [b"\xff\xff\xff", b"\xff\xd8\xff\xff", b"\xff\xff\xff\xff\xff\xff\xff", b"\xfb\xff\xbf", b"\xff\xff", b"\xff", b"\x03\xff\xff\xf0"]
 
 
+def writes_top_level_table(batches):
+    """do these top-level values include a struct (or null.struct) whose FIRST annotation is $ion_symbol_table?  By the
+    definition of Ion that is a local symbol table, not a value: it cannot be written as a top-level user value, so the
+    properties about "the values written" do not quantify over it (gen_forest never produces it; call-sequence
+    mutators can)"""
+    for b in batches:
+        for annots, body in (b or []):
+            if annots and annots[0] == b"$ion_symbol_table" and (body[0] == "struct" or body == ("null", TSTRUCT)):
+                return True
+    return False
+
+
 def gen_forest(rng, opts=None):
     opts = opts or {}
     n = rng.choice([1, 1, 2, 3, rng.randint(0, 6)])
